@@ -315,6 +315,71 @@ def fidelity(rng, quick, pool):
     return out
 
 
+
+# ----------------------------------------------------------------------------- projection (DESIGN 5.3)
+# A presence toggle that turns PCR / OPCR / splice countdown on leaves the new field's value unspecified
+# (spec: op_rel is a relation there).  The model reproduces what the code does (old bytes shine through), but a
+# harmless change of the code (e.g. zeroing the new field) must not alarm: when the replies differ, the bytes and
+# getter values of fields that are currently *unspecified* are masked on both sides before comparing.
+
+GETTER_IDX = {"pcr": (5, 23), "opcr": (7, 24), "sp": (9, 25)}
+FIELDS = ((3, 8, "pcr", 16), (4, 9, "opcr", 8), (5, 10, "sp", 4))
+
+
+def unspecified_trace(pkt, ops, model_v):
+    """which of PCR/OPCR/splice are 'switched on, value never set' after each call; read off the MODEL's reply
+    (status and flags byte after each call), so it is exact for every start, garbage included"""
+    prev = pkt[5]; U = set(); out = []
+    for step, (c, a) in zip(model_v[1:], ops):
+        if not isinstance(step, list) or len(step) != 3:
+            break
+        ok = step[0] == [0]; fl = step[1][5]
+        for code, setter, f, bit in FIELDS:
+            if c == code and ok:
+                if a and not (prev & bit) and (fl & bit): U.add(f)
+                if not a: U.discard(f)
+            if c == setter and ok: U.discard(f)
+            if not (fl & bit): U.discard(f)
+        if c == 13 and ok: U.clear()
+        prev = fl
+        out.append((frozenset(U), fl))
+    return out
+
+
+def masked(v, trace):
+    for (U, fl), step in zip(trace, v[1:]):
+        if not U or not isinstance(step, list) or len(step) != 3: continue
+        b = bytearray(step[1]); g = step[2]
+        pcr, opcr = bool(fl & 16), bool(fl & 8)
+        rng = {"pcr": (6, 12), "opcr": (6 + 6 * pcr, 12 + 6 * pcr), "sp": (6 + 6 * pcr + 6 * opcr, 7 + 6 * pcr + 6 * opcr)}
+        for f in U:
+            lo, hi = rng[f]
+            for i in range(lo, hi): b[i] = 0
+            for gi in GETTER_IDX[f]:
+                if isinstance(g[gi], list) and len(g[gi]) == 2 and g[gi][0] == 0: g[gi] = [0, "unspecified"]
+        step[1] = bytes(b)
+    return v
+
+
+MASKED_ACCEPTS = []
+
+
+def oracle(c, real, model):
+    if real == model:
+        return ""
+    try:
+        pkt, ops = split_line(c.line)
+        mv = vlib.parse_val(model)
+        tr = unspecified_trace(pkt, [(o[0], o[1]) for o in ops], mv)
+        if not any(U for U, _ in tr):
+            return None
+        if masked(vlib.parse_val(real), tr) == masked(mv, tr):
+            MASKED_ACCEPTS.append(c.line[:200])   # fidelity note: differs only inside unspecified fields
+            return ""
+    except Exception:
+        return None
+    return None
+
 # ----------------------------------------------------------------------------- shrinking / replay
 
 def split_line(line):
